@@ -92,7 +92,8 @@ CallsAfter(line, base) ==
   IN [id \in (DOMAIN base) \cup newIds |->
         IF id \in newIds
         THEN LET k == CHOOSE k \in iss1 : line.out[k].call = id IN
-             [c |-> CallRec(line.out[k]), st |-> "issued", res |-> [r |-> "none"]]
+             [c |-> CallRec(line.out[k]), st |-> "issued", res |-> [r |-> "none"],
+              lc |-> IF "lc" \in DOMAIN line.out[k] THEN line.out[k].lc ELSE 0]
         ELSE IF id \in dropIds THEN [base[id] EXCEPT !.st = "dropped"]
         ELSE base[id]]
 
@@ -167,14 +168,22 @@ Violated(line) == LET j == Judged(line) IN {p \in DOMAIN j : ~j[p]}
 (* Known-finding patterns (DESIGN.md section 11): the specific call site and  *)
 (* fault after which a violation is a recorded finding, not a new one.        *)
 (*   K2  fetch_payment_info (listdatastore) returned an error                 *)
-(*   K1  wait_payment returned an error while the stored state was Pending:   *)
-(*       the lifecycle hits todo!() (panic item at that very delivery)        *)
-(*   K3  wait_payment returned an error inside pay(): propagated as failure   *)
+(*   K1  wait_payment returned an error on the restart path (the lifecycle    *)
+(*       that issued the failing listsendpays/waitsendpay has not issued a    *)
+(*       pay) and the lifecycle hits todo!() (panic item at that delivery)    *)
+(*   K3  wait_payment returned an error inside pay() (the issuing lifecycle   *)
+(*       has issued a pay): propagated as a payment failure                   *)
+(* An error on the restart path WITHOUT the todo!() panic is no recorded      *)
+(* pattern: whatever the code does then is judged in full.                    *)
 KfTags(line) ==
   IF line.ev = "deliver" /\ line.call \in DOMAIN calls /\ calls[line.call].res.r = "error"
   THEN IF line.kind = "listds" THEN {"K2"}
        ELSE IF line.kind \in {"lists", "wait"}
-            THEN IF \E k \in Items(line, "panic") : line.out[k].loc = "htlc_manager.rs:todo" THEN {"K1"} ELSE {"K3"}
+            THEN LET lc == calls[line.call].lc
+                     paid == lc # 0 /\ \E id \in DOMAIN calls : calls[id].lc = lc /\ calls[id].c.kind = "pay" IN
+                 IF paid THEN {"K3"}
+                 ELSE IF \E k \in Items(line, "panic") : line.out[k].loc = "htlc_manager.rs:todo" THEN {"K1"}
+                 ELSE {}
        ELSE {}
   ELSE {}
 
@@ -279,6 +288,12 @@ DoProbe ==
   /\ runinfo' = [runinfo EXCEPT !.probeIds = @ \cup Range(Line.ids)]
   /\ UNCHANGED <<viol, kf, nt>>
 
+\* the design's own probe phase begins (replayed TLC schedules of instances with probe HTLCs): nothing happens
+DoPhase ==
+  /\ Line.ev = "phase"
+  /\ NodeStep([t |-> "probe"], Reaction(Line))
+  /\ UNCHANGED <<calls, runinfo, viol, kf, nt>>
+
 \* end of run: C09 (some probe set was settled with the right preimage), report
 DoEnd ==
   /\ Line.ev = "end"
@@ -297,7 +312,7 @@ Next ==
   /\ l <= N
   /\ l' = l + 1
   /\ \/ DoReset \/ DoHtlc \/ DoExec \/ DoDeliver \/ DoPayPart \/ DoPartDone \/ DoPayReturn
-     \/ DoTick \/ DoHeight \/ DoCrash \/ DoCall \/ DoDrained \/ DoProbe \/ DoEnd
+     \/ DoTick \/ DoHeight \/ DoCrash \/ DoCall \/ DoDrained \/ DoProbe \/ DoPhase \/ DoEnd
 
 Spec == Init /\ [][Next]_ovars
 
